@@ -44,6 +44,8 @@ pub fn judge(ctx: &Ctx, l: &mut Local, p: &Params, site: Site, date: NaiveDate) 
 }
 
 pub fn explore(ctx: &Ctx) {
+    // call sequences from non-initial states (see history.rs)
+    crate::history::explore(ctx, "place_time", &crate::history::alphabet_place_time(), 3);
     let quick = ctx.tier == Tier::Quick;
     ctx.rule("every (site, date, params) triple is enumerated once (distinct by construction); it is non-trivial when Dhuhr was reported and its instant was judged against the reference ephemeris; cases on the yearly RA 360->0 wrap days are counted separately in counters");
     ctx.assume("reference ephemeris: Meeus ch.25 low-accuracy Sun + equation of time (self-tested against Meeus examples 25.a/28.a); Delta-T ignored on both sides (<= 2 s)");
